@@ -655,6 +655,36 @@ def alpha_n_closed(spec):
 
 
 @st.composite
+def st_cubic1_margin(draw, min_alpha=2e-3, hi=1.10, lo=1.02):
+    """Cubic1 points whose phases exist with a margin over the range the solver needs, by
+    construction: the broken phase up to T1 >= hi*Tn and the symmetric phase down to T0 <= Tn/lo."""
+    g = round(draw(st.floats(0.1, 0.6)), 4)
+    lam = round(draw(st.floats(0.05, 0.3)), 4)
+    # T1/T0 = 1/sqrt(1-f) must exceed hi*lo
+    fmin = 1.0 - 1.0 / (hi * lo * 1.005) ** 2
+    f = draw(st.floats(fmin, 0.5))
+    A = round(math.sqrt(4 * lam * g * f), 5)
+    a = round(draw(st.floats(20.0, 120.0)) * GSTAR_A, 5)
+    p = {"g": g, "A": A, "lam": lam, "a": a, "T0": 100.0}
+    cf = Cubic1(p)
+    tn_lo = cf.T0 * lo
+    tn_hi = min(cf.Tc * 0.995, cf.T1 / hi)
+    if tn_hi <= tn_lo:  # rounding of A: fall back to the strongest cubic
+        p["A"] = round(math.sqrt(4 * lam * g * 0.5), 5)
+        cf = Cubic1(p)
+        tn_hi = min(cf.Tc * 0.995, cf.T1 / hi)
+    Tn = tn_lo + draw(st.floats(0.0, 1.0)) * (tn_hi - tn_lo)
+    spec = {"family": "Cubic1", "p": p, "delta": round(1 - Tn / cf.Tc, 6)}
+    if min_alpha is not None:
+        for _ in range(4):
+            al = alpha_n_closed(spec)
+            if al >= min_alpha:
+                break
+            p["a"] = round(p["a"] * al / (1.3 * min_alpha), 6)
+    return spec
+
+
+@st.composite
 def st_cubic1(draw, delta_range=(0.02, 0.9), min_alpha=None):
     """Cubic1: Tn = Tc - x (Tc - T0) with x in delta_range (so both phases exist at Tn by construction).
     With min_alpha the number of light degrees of freedom `a` is lowered (alpha_n ~ 1/a) until
